@@ -28,8 +28,8 @@
   Restrictions.  `Fragment P`: flat guarded assignments with right side expression / choice / Bernoulli / Categorical /
   DiscreteUniform (no `simult`, no `ite`, no continuous draw — draw atoms never occur).  V1 for programs WITH continuous
   draws is in `PolarProofs/ValidateCont.lean` (`checkInductiveC_sound0/_sound`, semantic reading of "constant"); V2 with
-  continuous draws is NOT proved (it needs: `polyE` depends only on the polynomial function, and E over old and new
-  atoms factorises).  "Whenever the quantities are
+  continuous draws is in `PolarProofs/ValidateStepC.lean` (`checkOneStepC_sound`, `recurrence_holds_forall_nC`,
+  `recurrence_holds_from_zeroC`).  "Whenever the quantities are
   defined": the theorems assume that the concrete run and the expectations return `.ok` (the semantics refuses e.g.
   division by zero or an unset variable); they do NOT assume anything about what the concrete run looks like.
   Zero-weight paths are exempt in V1 because the executable check exempts them (a `Bernoulli(1)` branch of weight 0
